@@ -44,7 +44,7 @@ VARIABLES block,    \* number of the block being executed
           exits,    \* exit-block map: block -> validator
           eff,      \* effectiveVET (slot 0 of staker.sol)
           bal,      \* VET balance of the contract
-          led,      \* observation only: [vdep, vwd : validator -> Nat, ddep, dwd : Seq(Nat)] deposited / withdrawn
+          led,      \* observation only: [vdep, vwd : validator -> Nat, ddep, dwd : Seq(Nat), don] deposited / withdrawn / donated
           res       \* result of the last operation
 core == <<block, mbpParam, mbpMax, val, agg, del, g, aL, qL, ren, exits, eff, bal, led>>
 vars == <<block, mbpParam, mbpMax, val, agg, del, g, aL, qL, ren, exits, eff, bal, led, res>>
@@ -395,8 +395,9 @@ SetMBP(m) ==
 \* VET forced into the contract (the contract cannot refuse e.g. a self-destruct beneficiary transfer)
 Donate(x) ==
   /\ bal' = bal + x
+  /\ led' = [led EXCEPT !.don = @ + x]
   /\ res' = [op |-> "Donate", ok |-> TRUE, msg |-> "", amt |-> x, a |-> NoVal, d |-> 0, act |-> FALSE, upd |-> FALSE]
-  /\ UNCHANGED <<block, mbpParam, mbpMax, val, agg, del, g, aL, qL, ren, exits, eff, led>>
+  /\ UNCHANGED <<block, mbpParam, mbpMax, val, agg, del, g, aL, qL, ren, exits, eff>>
 
 \* the next block starts: Staker.SyncPOS(forkConfig, block + 1)
 NextBlock ==
@@ -419,7 +420,7 @@ InitWith(vs, b0, m0) ==
   /\ val = [v \in vs |-> EmptyVal] /\ agg = [v \in vs |-> EmptyAgg] /\ del = <<>>
   /\ g = ZeroG /\ aL = EmptyList /\ qL = EmptyList /\ ren = <<>> /\ exits = <<>>
   /\ eff = 0 /\ bal = 0
-  /\ led = [vdep |-> [v \in vs |-> 0], vwd |-> [v \in vs |-> 0], ddep |-> <<>>, dwd |-> <<>>]
+  /\ led = [vdep |-> [v \in vs |-> 0], vwd |-> [v \in vs |-> 0], ddep |-> <<>>, dwd |-> <<>>, don |-> 0]
   /\ res = [op |-> "Init", ok |-> TRUE, msg |-> "", amt |-> 0, a |-> NoVal, d |-> 0, act |-> FALSE, upd |-> FALSE]
 
 -----------------------------------------------------------------------------
@@ -444,6 +445,14 @@ DelClaim == \A i \in Dels : /\ led.dwd[i] <= led.ddep[i]
                             /\ led.ddep[i] - led.dwd[i] = del[i].stake
 EffectiveIsClaims == eff = SumOver([a \in VS |-> led.vdep[a] - led.vwd[a]], VS)
                            + SumOver([i \in Dels |-> led.ddep[i] - led.dwd[i]], Dels)
+\* everybody has left and withdrawn: nothing is left behind in any bucket, the contract holds only what was forced into it
+\* and everybody got back, in total, exactly what they deposited
+Drained ==
+  /\ eff = 0 /\ g = ZeroG /\ bal = led.don
+  /\ \A a \in VS : /\ val[a].lk = 0 /\ val[a].qu = 0 /\ val[a].cd = 0 /\ val[a].wd = 0 /\ val[a].pu = 0
+                   /\ agg[a] = EmptyAgg /\ led.vwd[a] = led.vdep[a]
+  /\ \A i \in Dels : del[i].stake = 0 /\ led.dwd[i] = led.ddep[i]
+  /\ aL = EmptyList /\ qL = EmptyList
 \* no bucket ever underflows; what is scheduled to leave is inside what is there
 NonNegative ==
   /\ g.lv >= 0 /\ g.lw >= 0 /\ g.qu >= 0 /\ g.wd >= 0 /\ g.cd >= 0 /\ eff >= 0 /\ bal >= 0
